@@ -351,6 +351,13 @@ func domainProblems(s *server.Server) (probs []string, ambiguous int) {
 			break
 		}
 	}
+	// documented: leader-schedule-policy is one of ["count", "size"], key-type one of ["table", "raw", "txn"]
+	if !inList([]string{"count", "size"}, sc.LeaderSchedulePolicy) {
+		probs = append(probs, "leader-schedule-policy-not-count-or-size")
+	}
+	if !inList([]string{"table", "raw", "txn"}, s.GetPDServerConfig().KeyType) {
+		probs = append(probs, "key-type-not-table-raw-txn")
+	}
 	rc := s.GetReplicationConfig()
 	if rc.IsolationLevel != "" && !inList(rc.LocationLabels, rc.IsolationLevel) {
 		probs = append(probs, "isolation-level-not-a-location-label")
